@@ -5158,6 +5158,12 @@ class PyCdlib:
         else:
             sector_count = boot_load_size
 
+        # Both are 16-bit fields of the boot catalog entry.
+        if not 0 <= sector_count <= 0xffff:
+            raise pycdlibexception.PyCdlibInvalidInput('The El Torito load size must be between 0 and 65535 sectors of 512 bytes')
+        if not 0 <= boot_load_seg <= 0xffff:
+            raise pycdlibexception.PyCdlibInvalidInput('The El Torito load segment must be between 0 and 65535')
+
         if boot_dirrecord.inode is None:
             raise pycdlibexception.PyCdlibInternalError('Tried to add an empty boot dirrecord inode to the El Torito boot catalog')
 
